@@ -259,6 +259,10 @@ func checkMain(args []string) int {
 		fmt.Fprintln(os.Stderr, "no baseline for", id)
 		return 2
 	}
+	evidenceUnclaimed = map[string]bool{}
+	for _, n := range base.Unclaimed {
+		evidenceUnclaimed[n] = true
+	}
 	var known []KnownFinding
 	readJSON(filepath.Join(verifDir, "known_findings.json"), &known)
 	knownFor := func(name string) *KnownFinding {
@@ -434,9 +438,17 @@ func writeEvidence(id, tier string, seed int, out *runOutput, cfg *PropConfig, w
 	nob, ndis := 0, 0
 	var samples []any
 	var obl []any
+	var unclaimedList []any
+	defer func() { evidenceUnclaimed = nil }()
 	perSolver := map[string]float64{}
 	for _, r := range out.results {
 		if r.Canary {
+			continue
+		}
+		if evidenceUnclaimed[r.Name] {
+			// generated and attempted, but not part of the claim (never discharged on the
+			// baseline tree): reported separately, not counted as an obligation of the proof
+			unclaimedList = append(unclaimedList, map[string]any{"name": r.Name, "result": r.Result, "clause": r.Clause})
 			continue
 		}
 		nob++
@@ -460,6 +472,7 @@ func writeEvidence(id, tier string, seed int, out *runOutput, cfg *PropConfig, w
 	}
 	cov["obligations"] = nob
 	cov["discharged"] = ndis
+	cov["unclaimed_obligations_not_discharged"] = unclaimedList
 	cov["functions_under_contract"] = out.funcs
 	cov["trusted_contracts"] = out.trusted
 	cov["obligation_results"] = obl
